@@ -50,6 +50,8 @@ def enc_case(s, h=0):
     h = enc_string(p.text, h)
     h = enc_string(p.commandString, h)
     h = enc_string(p.fullText, h)
+    h = enc_string(p.stringify(), h)                      # str(parser): every part, checksum iff a line number is present
+    h = enc_string(p.stringify(includeChecksum=True, includeComment=False, includeEol=False), h)
     try:
         p.validate()
         v = 0
@@ -164,9 +166,27 @@ WORDS = ['* 12', '*  7', 'G38.0', 'M80.0 S1', 'G1.0', 'T0.5', 'G28.00', 'N5 G1 X
          'Hello \\; world', 'a\\\\b', '\\', '*12', '*', '*1x', ';c', '; comment * 5', ' ', '  ', '\t', '@pause', '@', 'XYZ', '0', '.', '..', '1.2.3']
 
 
+def numbered_line(rng):
+    body = 'N%d %s' % (rng.choice([0, 1, 7, 12, 345]), rng.choice(['G1 X1 Y2', 'G28', 'M110 N0', 'G1 X28 Y20', 'M117 hi there', 'T0', 'G38.2 Z-5', 'G1  X1 ']))
+    c = 0
+    for b in body.encode():
+        c ^= b
+    k = rng.random()
+    if k < 0.5:
+        cs = c
+    elif k < 0.8:
+        cs = c ^ rng.choice([1, 2, 64])
+    else:
+        cs = rng.choice([0, 5, 255])
+    return rng.choice(['', ' ', '   ']) + body + rng.choice(['', ' ']) + '*%d' % cs + rng.choice(['', ' ', ' ; c'])
+
+
 def random_lines(rng, n):
     out = []
-    for _ in range(n):
+    for k in range(n):
+        if k % 8 == 0:
+            out.append(numbered_line(rng) + rng.choice(['', '\n', '\r\n']))
+            continue
         parts = [rng.choice(WORDS) for _ in range(rng.randint(0, 7))]
         s = rng.choice(['', ' ', '']).join(parts) if rng.random() < 0.3 else ' '.join(parts)
         s += rng.choice(['', '\n', '\r\n', '\r', '\n\n', ' \n'])
